@@ -141,7 +141,8 @@ class Resolver(object):
 # ----------------------------------------------------------- param generation
 
 def _seed(r):
-  return r.randrange(0, 10**6)
+  v = r.randrange(0, 10**6)
+  return 0 if v % 16 == 0 else v      # the integer seed 0 is as legal as any other (and falsy)
 
 
 def _ncomp(r, d, p_none=0.5):
